@@ -126,17 +126,20 @@ def py_parse_check_line(line0):
     else:
         esc = False
         las = line
-    k = las.find(UNTAG_SEP)
-    if k >= 0:
-        hash_hex, file_str = las[:k], las[k + 2:]
-    elif las.startswith(TAG_PREFIX) and las[len(TAG_PREFIX):].rfind(TAG_SEP) >= 0:
+    # the tagged form is tried first (fix bb2f114)
+    if las.startswith(TAG_PREFIX) and las[len(TAG_PREFIX):].rfind(TAG_SEP) >= 0:
         t = las[len(TAG_PREFIX):]
         k = t.rfind(TAG_SEP)
         file_str, hash_hex = t[:k], t[k + 4:]
+    elif las.find(UNTAG_SEP) >= 0:
+        k = las.find(UNTAG_SEP)
+        hash_hex, file_str = las[:k], las[k + 2:]
     else:
         raise PErr("format")
     if byte_len(hash_hex) != 64:
         raise PErr("hash-length")
+    if any(ord(c) >= 0x80 for c in hash_hex):    # ensure!(hash_hex.is_ascii()) (fix 008d515)
+        raise PErr("hex")
     hb = bytearray()
     cs = list(hash_hex)
     for j in range(32):
